@@ -59,7 +59,7 @@ def merge_layouts(page_layouts):
                 print(f'ERROR: Line ID is not matching for layout id {merged_layout.id}.')
                 exit(-1)
 
-        best_confidence = 0
+        best_confidence = -np.inf
         for line in lines:
             line_confidences = get_confidences(line)
             if line_confidences.size > 0:
@@ -72,7 +72,8 @@ def merge_layouts(page_layouts):
                 merged_line.transcription = line.transcription
                 merged_line.logits = line.logits
                 merged_line.characters = line.characters
-                merged_line.transcription_confidence = line_confidence
+                if line_confidence > 0:
+                    merged_line.transcription_confidence = line_confidence
 
 
 def main():
